@@ -140,14 +140,19 @@ structure Alg (D : Type) where
   init : D
   fin : D → D := id        -- SM3: byte-swap of the digest words when the job completes
 
-/-- `*_ctx_mgr_resubmit` -/
-def resubmit (A : Alg D) : Nat → M D → Option Cid → M D × Option Cid
-  | 0, m, _ => (m, none)
-  | _, m, none => (m, none)
+/-- the model's algorithm record built from an executable standard (`Spec/*.lean`) -/
+def ofSpec (h : HashAlg) (fin : h.S → h.S) : Alg h.S :=
+  { B := h.B, L := h.L, lenBE := h.lenBE, f := h.compress, init := h.init, fin := fin }
+
+/-- `*_ctx_mgr_resubmit`.  The C loop `while (ctx)` has no bound; the model takes fuel and returns
+    `none` when it runs out (`resubmit_fuel` shows `fuelFor` always suffices). -/
+def resubmit (A : Alg D) : Nat → M D → Option Cid → Option (M D × Option Cid)
+  | _, m, none => some (m, none)
+  | 0, _, some _ => none
   | fuel+1, m, some c =>
     let x := m.ctxs c
     if x.complete then
-      (setCtx m c { x with processing := false, last := false, dig := A.fin x.dig }, some c)
+      some (setCtx m c { x with processing := false, last := false, dig := A.fin x.dig }, some c)
     else if x.part = [] ∧ x.incoming ≠ [] then
       let n := x.incoming.length / A.B
       let bs := blocks A.B n x.incoming
@@ -159,16 +164,16 @@ def resubmit (A : Alg D) : Nat → M D → Option Cid → M D × Option Cid
         let r := mgrSubmit A.f (setCtx m c { x' with last := false, complete := true }) c
                    (hashPad A.B A.L A.lenBE x'.part x'.total)
         resubmit A fuel r.1 r.2
-      else (setCtx m c { x' with processing := false }, some c)
+      else some (setCtx m c { x' with processing := false }, some c)
     else if x.last then
       let r := mgrSubmit A.f (setCtx m c { x with last := false, complete := true }) c
                  (hashPad A.B A.L A.lenBE x.part x.total)
       resubmit A fuel r.1 r.2
-    else (setCtx m c { x with processing := false }, some c)
+    else some (setCtx m c { x with processing := false }, some c)
 
 /-- fuel that always suffices: every iteration either returns or submits one job phase;
-    a context has at most 3 phases (carried block, body, padding) -/
-def fuelFor (m : M D) : Nat := 3 * (m.slots.length + 2) + 3
+    a context has at most 2 pending phases (body, padding) -/
+def fuelFor (m : M D) : Nat := 2 * m.slots.length + 4
 
 def errInvalidFlags : Int := -1
 def errAlreadyProcessing : Int := -2
@@ -181,43 +186,51 @@ def rejects (x : Ctx D) (flags : Nat) : Bool :=
 def baseRejects (x : Ctx D) (flags : Nat) : Bool :=
   flags / 4 ≠ 0 || (x.processing && flags = 3) || (x.complete && flags % 2 = 0)
 
-/-- `*_ctx_mgr_submit_<family>` (all families except base). `flags` is the raw int. -/
-def ctxSubmit (A : Alg D) (m : M D) (c : Cid) (data : Bytes) (flags : Nat) : M D × Option Cid :=
-  let x := m.ctxs c
-  if flags / 4 ≠ 0 then (setCtx m c { x with error := errInvalidFlags }, some c)
-  else if x.processing then (setCtx m c { x with error := errAlreadyProcessing }, some c)
-  else if x.complete ∧ flags % 2 = 0 then (setCtx m c { x with error := errAlreadyCompleted }, some c)
-  else
-    let first := flags % 2 = 1
-    let lastF := flags / 2 % 2 = 1
-    let x1 : Ctx D := if first then { x with dig := A.init, total := 0, part := [] } else x
-    let x2 : Ctx D := { x1 with error := 0, incoming := data, processing := true, last := lastF,
-                                complete := false, total := (x1.total + data.length) % 2^64 }
-    if x2.part ≠ [] ∨ data.length < A.B then
-      let copy := min (A.B - x2.part.length) data.length
-      let x3 : Ctx D := if copy ≠ 0 then
-          { x2 with part := x2.part ++ data.take copy, incoming := data.drop copy } else x2
-      if A.B ≤ x3.part.length then
-        let blk := x3.part
-        let r := mgrSubmit A.f (setCtx m c { x3 with part := [] }) c [blk]
-        resubmit A (fuelFor m) r.1 r.2
-      else resubmit A (fuelFor m) (setCtx m c x3) (some c)
-    else resubmit A (fuelFor m) (setCtx m c x2) (some c)
+/-- second half of `*_ctx_mgr_submit_<family>`: top up / complete the carried partial block, then
+    enter the resubmit loop.  `x2` is the context after the bookkeeping stores
+    (`incoming_buffer`, status, `total_length`). -/
+def submitTail (A : Alg D) (m : M D) (c : Cid) (x2 : Ctx D) : Option (M D × Option Cid) :=
+  let data := x2.incoming
+  if x2.part ≠ [] ∨ data.length < A.B then
+    let copy := min (A.B - x2.part.length) data.length
+    let x3 : Ctx D := if copy ≠ 0 then
+        { x2 with part := x2.part ++ data.take copy, incoming := data.drop copy } else x2
+    if A.B ≤ x3.part.length then
+      let r := mgrSubmit A.f (setCtx m c { x3 with part := [] }) c [x3.part]
+      resubmit A (fuelFor m) r.1 r.2
+    else resubmit A (fuelFor m) (setCtx m c x3) (some c)
+  else resubmit A (fuelFor m) (setCtx m c x2) (some c)
 
-/-- `*_ctx_mgr_flush_<family>` -/
-def ctxFlush (P : Params) (A : Alg D) : Nat → M D → M D × Option Cid
-  | 0, m => (m, none)
+/-- the context after the bookkeeping stores of an accepted submit -/
+def accepted (A : Alg D) (x : Ctx D) (data : Bytes) (flags : Nat) : Ctx D :=
+  let x1 : Ctx D := if flags % 2 = 1 then { x with dig := A.init, total := 0, part := [] } else x
+  { x1 with error := 0, incoming := data, processing := true, last := decide (flags / 2 % 2 = 1),
+            complete := false, total := (x1.total + data.length) % 2^64 }
+
+/-- `*_ctx_mgr_submit_<family>` (all families except base). `flags` is the raw int. -/
+def ctxSubmit (A : Alg D) (m : M D) (c : Cid) (data : Bytes) (flags : Nat) : Option (M D × Option Cid) :=
+  let x := m.ctxs c
+  if flags / 4 ≠ 0 then some (setCtx m c { x with error := errInvalidFlags }, some c)
+  else if x.processing then some (setCtx m c { x with error := errAlreadyProcessing }, some c)
+  else if x.complete ∧ flags % 2 = 0 then some (setCtx m c { x with error := errAlreadyCompleted }, some c)
+  else submitTail A m c (accepted A x data flags)
+
+/-- `*_ctx_mgr_flush_<family>` (`while (1)` loop; fuel as for `resubmit`) -/
+def ctxFlush (P : Params) (A : Alg D) : Nat → M D → Option (M D × Option Cid)
+  | 0, _ => none
   | fuel+1, m =>
     let r := mgrFlush P A.f m
     match r.2 with
-    | none => (r.1, none)
+    | none => some (r.1, none)
     | some c =>
-      let r2 := resubmit A (fuelFor m) r.1 (some c)
-      match r2.2 with
-      | some c' => (r2.1, some c')
-      | none => ctxFlush P A fuel r2.1
+      match resubmit A (fuelFor m) r.1 (some c) with
+      | none => none
+      | some r2 =>
+        match r2.2 with
+        | some c' => some (r2.1, some c')
+        | none => ctxFlush P A fuel r2.1
 
-def flushFuel (m : M D) : Nat := 3 * (m.slots.length + 1) + 1
+def flushFuel (m : M D) : Nat := 2 * m.slots.length + 3
 
 /-! ### `*_ctx_base.c` — synchronous reference family -/
 
